@@ -71,6 +71,64 @@ def normal_paths(S, frm=None, limit=5000, max_visits=1):
     return out
 
 
+def closure_result_on_path(p, wrapper="state::try_state"):
+    """For a path through `wrapper(closure)`: ('skipped',) if the closure was not run, else ('ran', last value assigned
+    to the closure's _0 on this path) - lets a rule discard paths whose later tests on the wrapper's result contradict it."""
+    S = p.S
+    res = {}
+    for i, (n, lab) in enumerate(p.path):
+        if n.ci is not None and n.ci["k"] == "call" and n.ci["npath"] == wrapper and n.inlined:
+            site = "%s:bb%d" % (n.ctx.fn.npath, n.bb)
+            if lab == "skip":
+                res[site] = ("skipped",)
+            else:
+                # the closure ctx entered from this node
+                sub = None
+                for (m, l2) in p.path[i + 1:]:
+                    if m.ctx.call_node is n:
+                        sub = m.ctx
+                        break
+                val = None
+                if sub is not None:
+                    for (m, l2) in p.path[i + 1:]:
+                        if m.ctx is sub:
+                            for st in m.stmts:
+                                if st["k"] == "assign" and st["place"]["l"] == 0 and not st["place"]["p"]:
+                                    val = S.resolve_rv(sub, st["rv"], None)
+                            t = m.term
+                            if t["k"] == "call" and t["dest"]["l"] == 0 and not t["dest"]["p"]:
+                                val = S.resolve_call_value(sub, m.bb)
+                res[site] = ("ran", val)
+    return res
+
+
+def consistent_with_closure_result(p, wrapper="state::try_state"):
+    """False if the path tests the wrapper's Result/Option result in a way that contradicts what the closure did on this path."""
+    cr = closure_result_on_path(p, wrapper)
+    for a, t in p.literals:
+        if a[0] != "discr":
+            continue
+        e = strip(a[1])
+        # discr(res): Ok = 0, Err = 1
+        if isinstance(e, tuple) and e and e[0] == "ret" and e[1] == wrapper and e[3] in cr:
+            is_ok = t in (("is", 0), ("not", 1))
+            if cr[e[3]][0] == "skipped" and is_ok:
+                return False
+            if cr[e[3]][0] == "ran" and not is_ok:
+                return False
+        # discr((res as Ok).0): the closure's own value; Option: None = 0, Some = 1
+        if isinstance(e, tuple) and e and e[0] == "field" and isinstance(e[1], tuple) and e[1][0] == "as" and e[1][2] == "Ok":
+            r = strip(e[1][1])
+            if isinstance(r, tuple) and r and r[0] == "ret" and r[1] == wrapper and r[3] in cr and cr[r[3]][0] == "ran":
+                v = cr[r[3]][1]
+                if isinstance(v, tuple) and v and v[0] == "agg" and v[2].endswith(("Option::Some", "Option::None")):
+                    some = v[2].endswith("Option::Some")
+                    lit_some = t in (("is", 1), ("not", 0))
+                    if some != lit_some:
+                        return False
+    return True
+
+
 def closure_value(S, env_expr, args=None):
     """Symbolic return value of a single-path crate closure given its environment expression."""
     env = strip(env_expr)
